@@ -269,9 +269,10 @@ class PSBT:
             tx_in = self.tx_obj.tx_ins[i]
             if tx_in.script_sig.commands:
                 raise ValueError("ScriptSig for the tx should not be defined")
-            # validate the ScriptSig
-            if psbt_in.script_sig:
-                tx_in.script_sig = psbt_in.script_sig
+            # validate the ScriptSig/Witness (a finalized native segwit input has a
+            # Witness and may come without a ScriptSig record)
+            if psbt_in.script_sig or psbt_in.witness:
+                tx_in.script_sig = psbt_in.script_sig or Script()
                 tx_in.witness = psbt_in.witness
                 if not self.tx_obj.verify_input(i):
                     raise ValueError(
@@ -535,8 +536,8 @@ Extra:\n{self.extra_map}
         # iterate through the transaction and PSBT inputs together
         #  using zip(tx_obj.tx_ins, self.psbt_ins)
         for tx_in, psbt_in in zip(tx_obj.tx_ins, self.psbt_ins):
-            # set the ScriptSig of the transaction input
-            tx_in.script_sig = psbt_in.script_sig
+            # set the ScriptSig of the transaction input (none for native segwit)
+            tx_in.script_sig = psbt_in.script_sig or Script()
             # Exercise 7: if the tx is segwit, set the witness as well
             if tx_obj.segwit:
                 # witness should be the PSBTIn witness or an empty Witness()
